@@ -29,7 +29,7 @@ PROPS = {
     "C03": dict(level="model_checking",
                 technique="TLC exhaustive on FactorKernel.tla (k-point multiset and symmetrised measure for every group x factorisation; "
                           "get_K_list as its loop; determineNK/autoNK decision table) + replay of every finished FactorKernel state on the "
-                          "real Grid/get_K_list/Data_K.kpoints_all and of decision-table states (quick: a seeded sample of 1500, thorough: up "
+                          "real Grid/get_K_list/Data_K.kpoints_all and of decision-table states (quick: a seeded sample of 1200, thorough: up "
                           "to 30000) on the real determineNK + real run() with a one-hot calculator against the spec's coefficient map + "
                           "TLC validation of recorded K-lists, k-sets, run() coefficient maps and determineNK calls + float comparison of "
                           "real calculators across factorisations",
@@ -95,8 +95,14 @@ def cleanup(tag, keep_tlc=False):
 
 
 def cpu_seconds():
+    """CPU time of this process plus its finished children (TLC); the box is shared, wall time says little"""
     t = os.times()
     return round(t.user + t.system + t.children_user + t.children_system, 1)
+
+
+def cpu_split():
+    t = os.times()
+    return dict(python=round(t.user + t.system, 1), tlc_and_other_children=round(t.children_user + t.children_system, 1))
 
 
 def vec(t):
@@ -310,9 +316,9 @@ def post_ok(pg, per, d, f):
 
 def part_determine_nk(rep, thorough, rng, tag, fn):
     if thorough:
-        consts = '  GROUPS = {"C1", "C4", "O", "H6"}\n  SCALARS = {1, 2, 3, 4, 5}\n  VECTORS <- VecsB\n  RECS <- RecsB\n'
+        consts = '  GROUPS = {"C1", "C4", "O", "H6"}\n  SCALARS = {1, 2, 3, 4, 5}\n  VECTORS <- VecsB\n  RECS <- RecsB\n  PERIODICS <- PerAll\n'
     else:
-        consts = '  GROUPS = {"C1", "C4", "H6"}\n  SCALARS = {1, 2, 3}\n  VECTORS <- VecsQ\n  RECS <- RecsQ\n'
+        consts = '  GROUPS = {"C1", "C4", "H6"}\n  SCALARS = {2, 3}\n  VECTORS <- VecsQ\n  RECS <- RecsQ\n  PERIODICS <- PerQ\n'
     cfg = "SPECIFICATION Spec\nCONSTANTS\n" + consts + "".join(f"INVARIANT {i}\n" for i in NK_INVS) + "CHECK_DEADLOCK FALSE\n"
     st = run_model(rep, "MC_DetermineNK.tla", cfg, "nk", workroot=os.path.join(WORK, tag))
     ftable.spec_violation(rep, st, "c03_nk")
@@ -324,7 +330,7 @@ def part_determine_nk(rep, thorough, rng, tag, fn):
         raise MachineryError(f"determineNK dump has {len(states)} states, TLC reported {st['distinct']}")
     # the dump order of a multi-worker TLC run is not deterministic: sort by the full input before drawing
     states.sort(key=lambda s: (s["grp"], repr(s["periodic"]), repr(s["NKdiv"]), repr(s["NKFFT"]), repr(s["NK"]), repr(s["rec"])))
-    limit = 30000 if thorough else 1500
+    limit = 30000 if thorough else 1200
     autos = [s for s in states if s["res"]["kind"] == "auto"]
     others = [s for s in states if s["res"]["kind"] != "auto"]
     rng.shuffle(autos)
@@ -862,7 +868,9 @@ def check(pid, tier):
             KS.skipped_private(rep, "determineNK", why)
         part_determine_nk(rep, thorough, rng, tag, fn)
         recs = part_end_to_end(rep, done, spec_groups, thorough, rng, tag)
-        recs = random_klist_records(rep, 250 if thorough else 12, rng) + recs + random_nk_records(rep, 1500 if thorough else 60, rng, fn)
+        if not thorough and len(recs) > 16:          # quick: a seeded sample of the run() records is validated by TLC
+            recs = rng.sample(recs, 16)
+        recs = random_klist_records(rep, 250 if thorough else 10, rng) + recs + random_nk_records(rep, 1500 if thorough else 40, rng, fn)
         if recs:
             part_records(rep, recs, thorough, tag)
         elif not rep.violations:
@@ -870,7 +878,7 @@ def check(pid, tier):
         t1 = cpu_seconds()
         part_numeric(rep, thorough, rng, tag)
         KS.flush_private(rep)
-        rep.part("cpu_seconds", exact_parts=round(t1 - t0, 1), real_calculators=round(cpu_seconds() - t1, 1))
+        rep.part("cpu_seconds", exact_parts=round(t1 - t0, 1), real_calculators=round(cpu_seconds() - t1, 1), **cpu_split())
     except Exception:
         if rep.violations:          # never lose what was already found
             KS.flush_private(rep)
